@@ -101,6 +101,9 @@ def _run_one(args: Tuple[Variant, str]) -> Dict[str, Any]:
         from rules import rules_for
         from sa.loader import AnalysisError
         from sa.loader import Repo
+        from sa.report import KnownFindings
+
+        kf = KnownFindings()
 
         findings: List[str] = []
         err_txt: Optional[str] = None
@@ -109,7 +112,10 @@ def _run_one(args: Tuple[Variant, str]) -> Dict[str, Any]:
             for fn in rules_for(v.prop):
                 rr = fn(ctx)
                 rr.check_floor()
-                findings.extend(f"{f.rule} {f.qualname}: {f.construct}" for f in rr.findings)
+                for f in rr.findings:
+                    f.prop = v.prop
+                # findings listed in known_findings.json are printed as KNOWN-FINDING by check.py, not as violations
+                findings.extend(f"{f.rule} {f.qualname}: {f.construct}" for f in rr.findings if kf.match(f) is None)
         except AnalysisError as err:
             err_txt = str(err)
         except Exception as err:  # noqa: BLE001
